@@ -249,8 +249,10 @@ func (k Keeper) IterateClients(
 
 	defer iterator.Close()
 	for ; iterator.Valid(); iterator.Next() {
-		keySplit := strings.Split(string(iterator.Key()), "/")
-		if keySplit[len(keySplit)-1] != host.KeyClientState {
+		// a client state key is exactly "clients/{chainName}/clientState"; the raw height bytes at the
+		// end of a consensus state key may themselves spell "/clientState"
+		keySplit := strings.SplitN(string(iterator.Key()), "/", 3)
+		if len(keySplit) != 3 || keySplit[2] != host.KeyClientState {
 			continue
 		}
 		clientState := k.MustUnmarshalClientState(iterator.Value())
